@@ -653,10 +653,95 @@ fn wrap(name: &str, c: Cmd) -> Option<Cmd> {
     })
 }
 
+/// `(joinprobe END SIB)`: a `JoinHandle` polled from OUTSIDE its command with a waker that, when woken, polls the handle again
+/// at once (what an executor on another thread does in response to the wake-up) and records what it saw (`R`eady / `P`ending).
+/// END: how the joined task ends — `res` (its request is resolved), `drop` (its request is dropped: evicted), `abort`
+/// (JoinHandle::abort, then the request is resolved). SIB: a sibling task inside the command awaits a clone of the handle too.
+/// out: `probes:<R|P>* final:<R|P>`
+fn run_joinprobe(end: &str, sib: bool) -> Option<String> {
+    use std::future::Future;
+    use std::pin::Pin;
+    use std::sync::atomic::{AtomicUsize, Ordering};
+    use std::sync::{mpsc::channel, Arc, Mutex};
+    use std::task::{Context, Poll, Wake, Waker};
+    type Boxed = Pin<Box<dyn Future<Output = ()> + Send>>;
+    struct Probe {
+        handle: Mutex<Option<Boxed>>,
+        seen: Mutex<String>,
+        budget: AtomicUsize,
+    }
+    impl Wake for Probe {
+        fn wake(self: Arc<Self>) {
+            self.wake_by_ref();
+        }
+        fn wake_by_ref(self: &Arc<Self>) {
+            // a woken side that re-registers is woken again by the same drain loop: bound the probes
+            if self.budget.fetch_update(Ordering::SeqCst, Ordering::SeqCst, |b| b.checked_sub(1)).is_err() {
+                return;
+            }
+            let waker: Waker = self.clone().into();
+            let mut cx = Context::from_waker(&waker);
+            let mut h = self.handle.lock().unwrap();
+            let r = h.as_mut().unwrap().as_mut().poll(&mut cx);
+            self.seen.lock().unwrap().push(if r.is_ready() { 'R' } else { 'P' });
+        }
+    }
+    let (tx, rx) = channel();
+    let mut cmd: Command<Effect, Event> = Command::new(move |ctx| async move {
+        let handle = ctx.spawn(|ctx| async move {
+            let v = ctx.request_from_shell(TestOp { n: 1, v: 1 }).await;
+            ctx.send_event(Event { tag: 10, v });
+        });
+        if sib {
+            let h2 = handle.clone();
+            ctx.spawn(move |ctx| async move {
+                h2.await;
+                ctx.send_event(Event { tag: 11, v: 0 });
+            });
+        }
+        tx.send(handle).unwrap();
+    });
+    let mut reqs = unwrap_effs(cmd.effects().collect());
+    let handle = rx.recv().ok()?;
+    let aborter = handle.clone();
+    let probe = Arc::new(Probe { handle: Mutex::new(None), seen: Mutex::new(String::new()), budget: AtomicUsize::new(4) });
+    let waker: Waker = probe.clone().into();
+    let mut cx = Context::from_waker(&waker);
+    let mut boxed: Boxed = Box::pin(handle);
+    if boxed.as_mut().poll(&mut cx).is_ready() {
+        return Some("probes: final:early".into());
+    }
+    *probe.handle.lock().unwrap() = Some(boxed);
+    let mut r = reqs.pop()?;
+    match end {
+        "res" => {
+            let _ = r.resolve(5);
+        }
+        "drop" => drop(r),
+        "abort" => {
+            aborter.abort();
+            let _ = r.resolve(5);
+        }
+        _ => return None,
+    }
+    let _ = cmd.effects().count();
+    let _ = cmd.events().count();
+    let _ = cmd.is_done();
+    probe.budget.store(0, Ordering::SeqCst);
+    let mut boxed = probe.handle.lock().unwrap().take()?;
+    let fin = match boxed.as_mut().poll(&mut cx) {
+        Poll::Ready(()) => 'R',
+        Poll::Pending => 'P',
+    };
+    let seen = probe.seen.lock().unwrap().clone();
+    Some(format!("probes:{seen} final:{fin}"))
+}
+
 fn run_case(line: &str) -> Option<String> {
     let s = sexp::parse(line)?;
     let (host, args) = s.form()?;
     match (host, args) {
+        ("joinprobe", [end, sib]) => run_joinprobe(end.as_atom()?, sib.as_atom()? == "1"),
         ("direct", [c, acts]) => run_host(&mut DirectHost::new(&parse_cmd(c)?, false), &parse_actions(acts)?, false),
         // extended fragment (waker-retaining combinators: StreamBuilder::then_stream = flatten_unordered): no exact model
         ("ext", [c, acts]) => run_host(&mut DirectHost::new(&parse_cmd(c)?, false), &parse_actions(acts)?, false),
@@ -1036,9 +1121,16 @@ fn main() {
             args[3].parse().unwrap(),
             args.get(4).map(String::as_str).unwrap_or("mix"),
         ),
+        Some("gen-joinprobe") => {
+            for end in ["res", "drop", "abort"] {
+                for sib in [0, 1] {
+                    println!("(joinprobe {end} {sib})");
+                }
+            }
+        }
         Some("run") => run(),
         _ => {
-            eprintln!("usage: rt gen <seed> <n> [profile] | run");
+            eprintln!("usage: rt gen <seed> <n> [profile] | gen-joinprobe | run");
             std::process::exit(2);
         }
     }
